@@ -172,6 +172,29 @@ func (s *Session[K]) CheckPurity(r *rng.R) {
 		}
 		s.bracket(fmt.Sprintf("Prefix(%s) stop=%d", s.K.Show(p), stop), func() { drainN(s.T.Prefix(s.fresh(p)), stop) })
 	}
+	// slice keys: a shortened re-slice of a key the tree itself yielded, used as a
+	// lookup argument (it shares memory with the stored key)
+	if s.K.Shorten != nil && n > 0 && !s.Dead {
+		var got K
+		have := false
+		idx, want := 0, r.Intn(n)
+		if s.guard("All", func() {
+			for k := range s.T.All() {
+				if idx == want {
+					got, have = k, true
+					break
+				}
+				idx++
+			}
+		}) {
+			return
+		}
+		if have && s.K.KeyLen(got) > 0 {
+			arg := s.K.Shorten(got, r.Intn(s.K.KeyLen(got)))
+			s.bracket(fmt.Sprintf("Search(<yielded key %s re-sliced to %d bytes>)", s.K.Show(got), s.K.KeyLen(arg)), func() { s.T.Search(arg) })
+			s.Res.Inc("purity_search_resliced_yielded_key")
+		}
+	}
 	// Insert of a present key changes nothing but that key's value
 	if has && !s.Dead {
 		old, _ := s.M.Get(st)
